@@ -248,7 +248,8 @@ fn c18_residual_new_two_partitions() {
 
 //@ prop: C18
 //@ also: C08
-//@ drives: Residual::new, Residual::from_parts, Residual::verify (consistent two-partition shape with CONCRETE order and block size, so that the quick tier has an accepting path)
+//@ tier: thorough
+//@ drives: Residual::new, Residual::from_parts, Residual::verify (consistent two-partition shape with CONCRETE order and block size; measured: this does not finish inside the 10-min quick cap either - the cost is in Residual::new itself, not in the free shape arguments - so the accepting path of Residual::new is decided in the thorough tier only)
 //@ bound: partition order 1, block size 4 (two partitions of 2 samples), warm-up length free in 0..=5, two arbitrary Rice parameters, every quotient and remainder value
 //@ asserts: never panics; Ok(r) implies r.verify() is Ok and r is well-formed - in particular an accepted warm-up lies within the first partition (<= 2), which is what count_bits() and the parser assume
 //@ stubs: alloc::fmt::format -> empty string
